@@ -1380,3 +1380,97 @@ _run11 = run
 def run(ctx, rep, tier):
     _run11(ctx, rep, tier)
     _attributes_and_arity(ctx, rep, tier)
+
+
+# ---------------------------------------------------------------------------------------------------------------- C18.z
+def _chains(expr, root):
+    """maximal attribute chains rooted at Name `root` inside expr, as dotted text with the root normalised to 'action'"""
+    out = set()
+    inner = set()
+    for n in ast.walk(expr):
+        if isinstance(n, ast.Attribute):
+            b = n
+            while isinstance(b, ast.Attribute):
+                b = b.value
+            if isinstance(b, ast.Name) and b.id == root:
+                out.add(n)
+                if isinstance(n.value, ast.Attribute):
+                    inner.add(n.value)
+    called = {c.func for c in ast.walk(expr) if isinstance(c, ast.Call)}
+    res = set()
+    for n in out:
+        if n in inner:
+            continue
+        if n in called:                 # `x.items.values()` names the container x.items, not a field `values`
+            n = n.value
+        if isinstance(n, ast.Attribute):
+            res.add("action." + ast.unparse(n).split(".", 1)[1])
+    return res
+
+
+def _single_return(f):
+    rets = [n for n in ast.walk(f) if isinstance(n, ast.Return) and n.value is not None]
+    return rets[0].value if len(rets) == 1 else None
+
+
+def _embedded_actions_agree(ctx, rep, tier):
+    """C18.z: the actions the code generator emits *inside* another action (the bodies of an `if`, what runs on the way out of a `break`) are the
+    ones that action reports through embeds(), and its override targets include theirs. Reachability (dead-state removal, the DONE/FAIL answer of
+    end(), the 'unreachable after loop' test) is computed from embeds()/get_target_override_targets(); the emitter then indexes the state list with
+    every target it meets: a target that reachability did not see has been removed -> ValueError from list.index (and, below -O1, a state that only
+    exists at some optimisation levels)."""
+    model = ctx.model
+    rep.rule("C18.z", "actions emitted inside another action are reported by its embeds() and contribute to its override targets")
+    q = "CodegenCtx._generate_action_implementation"
+    f = model.func(q)
+    n_inst = 0
+    for node in ast.walk(f):
+        if not (isinstance(node, ast.If) and isinstance(node.test, ast.Call) and ast.unparse(node.test.func) == "isinstance" and len(node.test.args) == 2
+                and isinstance(node.test.args[0], ast.Name) and isinstance(node.test.args[1], ast.Name)):
+            continue
+        var, K = node.test.args[0].id, node.test.args[1].id
+        if K not in model.classes:
+            continue
+        for loop in ast.walk(ast.Module(body=node.body, type_ignores=[])):
+            if not isinstance(loop, ast.For) or not isinstance(loop.target, ast.Name):
+                continue
+            rec = [c for c in ast.walk(loop) if isinstance(c, ast.Call) and ast.unparse(c.func) == "self._generate_action_implementation" and c.args
+                   and isinstance(c.args[0], ast.Name) and c.args[0].id == loop.target.id]
+            if not rec:
+                continue
+            it = loop.iter
+            root = var
+            if isinstance(it, ast.Call) and isinstance(it.func, ast.Attribute) and isinstance(it.func.value, ast.Name) and it.func.value.id == var and not it.args:
+                o, mf = model.resolve_method(K, it.func.attr)
+                r = _single_return(mf) if mf is not None else None
+                if r is None:
+                    rep.bad("C18.z", q, f"{K}: {ast.unparse(it)}", f"cannot resolve what `{ast.unparse(it)}` enumerates", line=loop.lineno)
+                    continue
+                it, root = r, "self"
+            emitted = _chains(it, root)
+            n_inst += 1
+            o, ef = model.resolve_method(K, "embeds")
+            er = _single_return(ef) if ef is not None and o == K else None
+            reported = _chains(er, "self") if er is not None else set()
+            if not emitted or not emitted <= reported:
+                rep.bad("C18.z", f"{K}.embeds", f"emitted {sorted(emitted)} / reported {sorted(reported)}",
+                        f"the code generator emits the actions in {sorted(emitted)} inside a {K}, but {K}.embeds() reports {sorted(reported) or 'nothing'}: a break / finish among them is "
+                        "invisible to all_subactions() (loop 'has a break' test, end() answer) ", line=loop.lineno)
+                continue
+            o, tf = model.resolve_method(K, "get_target_override_targets")
+            src = ast.unparse(tf) if tf is not None and o == K else ""
+            uses = tf is not None and o == K and (any(isinstance(c, ast.Call) and ast.unparse(c.func) == "self.embeds" for c in ast.walk(tf)) or emitted <= _chains(tf, "self"))
+            collects = uses and any(isinstance(c, ast.Call) and isinstance(c.func, ast.Attribute) and c.func.attr == "get_target_override_targets" for c in ast.walk(tf))
+            rep.check(collects, "C18.z", f"{K}.get_target_override_targets", f"includes the targets of {sorted(emitted)}",
+                      f"{K}.get_target_override_targets() does not include the override targets of the actions it embeds ({sorted(emitted)}): a state only reached through them "
+                      "(the end of an outer loop left by `loop { loop { ..; if c { break; } } break; }`) is removed as inaccessible and the emitter's list.index raises ValueError",
+                      line=(tf.lineno if tf is not None and o == K else loop.lineno))
+    rep.check(n_inst >= 2, "C18.z", q, f"{n_inst} embedding action kinds examined", f"only {n_inst} embedding action kinds recognised in the emitter (expected ConditionalAction and BreakAction)")
+
+
+_run12 = run
+
+
+def run(ctx, rep, tier):
+    _run12(ctx, rep, tier)
+    _embedded_actions_agree(ctx, rep, tier)
